@@ -91,7 +91,8 @@ def digraphSelf (nv : Nat) (B : BipG) (succ : Bool) : DiGraphEdgesVariables :=
   ⟨(if succ then "succ" else "pred"), bipSelf nv B⟩
 
 /-- `GraphEdgesVariables(F, G)` whose auxiliary bipartite graph is `B` -/
-def graphSelf (nv : Nat) (B : BipG) : GraphEdgesVariables := ⟨bipSelf nv B⟩
+def graphSelf (nv : Nat) (B : BipG) : GraphEdgesVariables :=
+  ⟨bipSelf nv B, ⟨nv⟩, ⟨(nv : Int) + 1, (nv : Int) + ((B.numberOfEdges : Nat) : Int) + 1⟩⟩
 
 theorem digraphSelf_sortby_pred (nv : Nat) (B : BipG) (succ : Bool) :
     ((digraphSelf nv B succ).sortby = "pred") ↔ succ = false := by
